@@ -13,7 +13,9 @@ def write_host(dirpath, names, depth=1, method=False, caller_locals=False, tag='
     fname = 'host_%s%d.py' % (tag, _counter[0])
     params = ', '.join(names)
     mparams = ', '.join(n if n != 'self' else 'self_' for n in names)
-    lines = ['"""generated host"""', '', '']
+    lines = ['"""generated host"""', '']
+    # module-level names that the parameters shadow: an expression naming a local must see the local
+    lines += ['%s = "module-level %s"' % (n, n) for n in names if n not in ('self', 'marker')] + ['', '']
     lines += ['def leaf(%s):' % params,
               '    marker = 0  # @hit',
               '    return marker', '', '']
